@@ -248,6 +248,16 @@ def run(chk):
     chk.floor("countdown-paths", 7)
     chk.sample({"pulse_lengths": {"pilot": PILOT, "sync": [S1, S2], "bit0": ZERO, "bit1": ONE, "pause": PAUSE}, "rows": rows})
     step_bound(chk, prog)
+    # the pulse lengths are counted in T-states only if every wait reaches the tape whole and exactly once: the
+    # '/tape-gets-clk' obligation of C05's walk of wait_internal (both machines)
+    from . import c05
+    from zx.report import FilteredCheck
+    chk.rule("T-PAIR (shared with C05)", "wait_internal hands the whole clk to Tap::process_clocks exactly once on every path")
+    fc = FilteredCheck(chk, lambda k: k.endswith("/tape-gets-clk"), "c05")
+    names_ = cc.Names(prog)
+    for m_ in names_.machine_variants():
+        c05.wait_internal(fc, prog, names_, m_)
+    chk.check(fc.forwarded >= 4, "T-PAIR/ZXController::wait_internal/tape-gets-clk/judged", "judged on %d paths only" % fc.forwarded)
     # block framing / window invariant of the TAP reader (shared rule, rules/tapeinv.py)
     from . import tapeinv
     chk.rule("T-INV", "Tap window invariant: inductive over every writer and every exit; asserts and bounds implied; headers read only at block ends")
